@@ -16,7 +16,7 @@ def compute(run, norm, ax, *args):
     ex = NumExec(run.src, "norm", ax, selfobj=Obj(norm, {}))
     env = {"self": ex.selfobj}
     for nm, x in zip(names[1:], args):
-        env[nm] = Num(x, data=True, py=False)
+        env[nm] = Num(x, data=True, py=False, alias=True)
     outs = ex.run(run.src.func("norm", f"{norm}.compute"), env)
     rets = [(k, v, p) for k, v, p in outs]
     if len(rets) != 1 or rets[0][0] != "return":
@@ -92,7 +92,8 @@ def build(run):
                 Td, _ = compute(run, t, ax, xr.sub(one, a), xr.sub(one, b))
                 run.add(Obl(f"{fq}/law.dual[{t}]", pre2, xr.same(Tab, xr.sub(one, Td)), fn=fq, meta=rp("dual", "ab")))
         except Unsupported as ex_:
-            run.add(undecided(f"{fq}/subset", f"outside the verified subset: {ex_}", fn=fq))
+            run.add(undecided(f"{fq}/subset", f"outside the verified subset: {ex_}", fn=fq,
+                              meta={"replay": {"module": "contracts.norms", "func": "replay", "kwargs": {"clause": "all", "norm": norm}, "vars": {}}}))
     # every S-norm with a T-norm of the same family is paired, and vice versa (static)
     run.add(static("norm/dual.pairs", sorted(C.DUAL.values()) == sorted(C.TNORMS), f"dual pairs {C.DUAL}"))
 
